@@ -713,12 +713,14 @@ func (e *ConcatExpression) Evaluate(ctx *Context, input system.Collection) (syst
 		return nil, err
 	}
 
-	// Convert empty collection to empty string
+	// Convert empty collection to empty string. A new collection is built: the operand
+	// may be a caller-owned slice (an environment variable) with spare capacity, which
+	// an append would write into.
 	if len(leftResult) == 0 {
-		leftResult = append(leftResult, system.String(""))
+		leftResult = system.Collection{system.String("")}
 	}
 	if len(rightResult) == 0 {
-		rightResult = append(rightResult, system.String(""))
+		rightResult = system.Collection{system.String("")}
 	}
 
 	if len(leftResult) > 1 || len(rightResult) > 1 {
